@@ -66,6 +66,7 @@ void g_sleep_exit(int idx);
 int g_sleepers(void);
 uint64_t g_switch_seq(void);
 void g_yield_noswitch(int idx);
+void g_yield_begin(int idx);
 int g_fiber_switches(int idx);  // number of times program fiber idx was switched in
 void g_expect_kernel_block(int on);
 void* g_fiber_ptr(int idx);
